@@ -54,16 +54,34 @@ fn align4(x: usize) -> usize {
 
 /// Lays out and builds one image. Sections (count cell, record table, bodies) are placed in a
 /// random order with random gaps after the optional zero header.
+#[derive(Default)]
+struct Opts {
+    /// number of records (default: random 0..12)
+    n: Option<usize>,
+    /// file names (default: random distinct names)
+    names: Option<Vec<String>>,
+    /// decoy labels to plant somewhere
+    labels: Vec<String>,
+}
+
 fn build(rng: &mut Rng, kind: Kind) -> Built {
+    build_with(rng, kind, &Opts::default())
+}
+
+fn build_with(rng: &mut Rng, kind: Kind, opts: &Opts) -> Built {
     let n = match rng.below(8) {
         0 => 0,
         1 => 1,
         _ => rng.range(0, 12),
     } as usize;
+    let n = opts.n.unwrap_or(n);
     let n = if matches!(kind, Kind::MissingName | Kind::OutOfRange) { n.max(1) } else { n };
     let padded = rng.chance(1, 2);
-    let mut names = super::pack::distinct_names(rng, n);
-    if n > 0 && rng.chance(1, 6) {
+    let mut names = match &opts.names {
+        Some(v) => v.clone(),
+        None => super::pack::distinct_names(rng, n),
+    };
+    if opts.names.is_none() && n > 0 && rng.chance(1, 6) {
         // a long name around the 64 / 128 / 256 byte marks with a double-byte character whose trail
         // byte looks like a lead byte near the mark (block-wise string decoders)
         let b = *rng.pick(&[64usize, 128, 256]);
@@ -205,9 +223,12 @@ fn build(rng: &mut Rng, kind: Kind) -> Built {
         let g = rng.range(1, 9) as usize;
         data.extend(rng.bytes(g));
     }
-    // the archive API wants whole cells at the end for labels at `size`; pad to 4
-    while data.len() % 4 != 0 {
-        data.push(0xDD);
+    // half of the images end on a word boundary; the others keep whatever length the last section
+    // left (data lengths in every residue class mod 4, e.g. an unaligned body last, no padding)
+    if rng.chance(1, 2) {
+        while data.len() % 4 != 0 {
+            data.push(0xDD);
+        }
     }
     let data_len = data.len();
     let bad = if n > 0 { rng.below(n as u64) as usize } else { 0 };
@@ -300,7 +321,15 @@ fn build(rng: &mut Rng, kind: Kind) -> Built {
                 _ => a.write_c_string(r, files[i].0.clone()).unwrap(),
             }
         }
-        a.write_u32(r + 4, rng.next() as u32).unwrap();
+        // the index word is not interpreted: any value, special ones included
+        let index = match rng.below(6) {
+            0 => 0,
+            1 => 0x8000_0000,
+            2 => 0xFFFF_FFFF,
+            3 => i as u32,
+            _ => rng.next() as u32,
+        };
+        a.write_u32(r + 4, index).unwrap();
         a.write_u32(r + 8, sizes[i] as u32).unwrap();
         a.write_u32(r + 12, offs[i] as u32).unwrap();
     }
@@ -334,6 +363,10 @@ fn build(rng: &mut Rng, kind: Kind) -> Built {
     }
     if rng.chance(1, 4) {
         want.push((count_addr, "Extra".to_string()));
+    }
+    for l in &opts.labels {
+        let addr = rng.below(data_len as u64 + 1) as usize;
+        want.push((addr, l.clone()));
     }
     // labels on the record addresses (as real arc files have them): "Data" and the record's own file
     // name; the first record's address is the Info address, so these share the Info bucket
@@ -373,6 +406,49 @@ fn build(rng: &mut Rng, kind: Kind) -> Built {
     let data_len = u32::from_le_bytes([img[4], img[5], img[6], img[7]]) as usize;
     assert_eq!(data_len, final_len, "c-string pool size mispredicted");
     Built { img, data_len, strings, labels, files, padded, count_addr, info_addr }
+}
+
+/// A tiny arc WITHOUT the 0x60-byte header whose first data word is 0 and whose data region has
+/// exactly `len` bytes (4 ≤ len): no file has a body, so no offset is ever used and the missing
+/// header is immaterial.  variant 0: no records, the count word (0) is the first word, `Info` right
+/// behind it; variant 1/2: a zero marker word, then count cell and a table of 1 / 2 empty files.
+fn build_tiny(rng: &mut Rng, len: usize, variant: usize) -> Option<Built> {
+    let n = variant;
+    let need = if n == 0 { 4 } else { 8 + 16 * n };
+    if len < need {
+        return None;
+    }
+    let mut data = vec![0u8; need];
+    data.extend(rng.bytes(len - need));
+    let (count_addr, info_addr) = if n == 0 { (0, 4.min(len)) } else { (4, 8) };
+    let names = super::pack::distinct_names(rng, n);
+    let files: Vec<(String, Vec<u8>)> = names.into_iter().map(|nm| (nm, Vec::new())).collect();
+    let mut a = BinArchive::new(Endian::Little);
+    a.allocate_at_end(len);
+    a.write_bytes(0, &data).unwrap();
+    a.write_u32(count_addr, n as u32).unwrap();
+    let mut strings = Vec::new();
+    for i in 0..n {
+        let r = info_addr + 16 * i;
+        a.write_string(r, Some(&files[i].0)).unwrap();
+        strings.push((r, files[i].0.clone()));
+        a.write_u32(r + 4, *rng.pick(&[0u32, 0x8000_0000, 0xFFFF_FFFF, 7])).unwrap();
+        a.write_u32(r + 8, 0).unwrap();
+        a.write_u32(r + 12, *rng.pick(&[0u32, 4, 0x60, 0xFFFF_FFFF, 0xFFFF_FFA0])).unwrap();
+    }
+    let mut labels = Vec::new();
+    let mut want = vec![(count_addr, "Count".to_string()), (info_addr, "Info".to_string())];
+    if rng.chance(1, 2) {
+        want.push((len, "End".to_string()));
+    }
+    rng.shuffle(&mut want);
+    for (addr, l) in want {
+        a.write_label(addr, &l).unwrap();
+        labels.push((addr, l));
+    }
+    let mut img = a.serialize().unwrap();
+    permute_label_rows(&mut img, rng.below(5), rng);
+    Some(Built { img, data_len: len, strings, labels, files, padded: false, count_addr, info_addr })
 }
 
 /// Reorders the 8-byte rows `(address, name offset)` of the label table in place.
@@ -467,6 +543,49 @@ fn gen_inner(seed: u64, tier: &str) -> Vec<String> {
     for _ in 0..ok_cases {
         let b = build(&mut rng, Kind::Ok);
         out.push(fmt_case(&b, "ok"));
+    }
+    // tiny unpadded arcs with a zero first word and no bodies: data regions of every length 4..=0x70
+    // (below, at and above the 0x60 bytes a header would need), 0 / 1 / 2 records
+    for len in 4..=0x70usize {
+        let variants: Vec<usize> = if thorough { vec![0, 1, 2] } else { vec![len % 3] };
+        for v in variants {
+            let b = build_tiny(&mut rng, len, v).or_else(|| build_tiny(&mut rng, len, 0)).unwrap();
+            out.push(fmt_case(&b, "ok"));
+        }
+    }
+    // exact counts and lengths: record counts around the powers of two; every name length and
+    // every label length 0..=130 encoded bytes once
+    for k in [7usize, 8, 9, 15, 16, 17, 31, 32, 33, 63, 64, 65, 127, 128, 129] {
+        if thorough || k % 2 == 1 || k == 8 || k == 64 {
+            let b = build_with(&mut rng, Kind::Ok, &Opts { n: Some(k), ..Opts::default() });
+            out.push(fmt_case(&b, "ok"));
+        }
+    }
+    {
+        let mut lens: Vec<usize> = (0..=130).collect();
+        rng.shuffle(&mut lens);
+        for chunk in lens.chunks(10) {
+            let mut names: Vec<String> = Vec::new();
+            for &l in chunk {
+                let mut nm = super::pack::exact_len_name(&mut rng, l);
+                while names.contains(&nm) {
+                    nm = super::pack::exact_len_name(&mut rng, l);
+                }
+                names.push(nm);
+            }
+            let labels: Vec<String> = chunk
+                .iter()
+                .map(|&l| {
+                    let mut t = super::pack::exact_len_name(&mut rng, l);
+                    if t == "Count" || t == "Info" {
+                        t = "Coumt".to_string();
+                    }
+                    t
+                })
+                .collect();
+            let b = build_with(&mut rng, Kind::Ok, &Opts { n: Some(names.len()), names: Some(names), labels });
+            out.push(fmt_case(&b, "ok"));
+        }
     }
     let err_cases = if thorough { 800 } else { 60 };
     for (kind, expect) in [
